@@ -15,9 +15,9 @@ else
   demo=$(ls "$sd"/demo/*.rs | head -1); t=$(basename "$demo" .rs)
   cp "$demo" tests/
 fi
-cargo test --offline --all-features --test "$t" >/tmp/confirm_$name.head.log 2>&1; head_rc=$?
+cargo test --offline --all-features --test "$t" -- --test-threads=1 >/tmp/confirm_$name.head.log 2>&1; head_rc=$?
 git apply "$sd/patch.diff" || { echo "$name: patch does not apply"; exit 1; }
-cargo test --offline --all-features --test "$t" >/tmp/confirm_$name.patched.log 2>&1; patched_rc=$?
+cargo test --offline --all-features --test "$t" -- --test-threads=1 >/tmp/confirm_$name.patched.log 2>&1; patched_rc=$?
 rm -f tests/"$t".rs; git clean -fdq -e target tests
 cargo test --workspace --offline --no-fail-fast >/tmp/confirm_$name.suite.log 2>&1; suite_rc=$?
 git checkout -q -- . && git clean -fdq -e target
